@@ -29,6 +29,7 @@ import Hdl21Model.Lemmas.ConnTypes
 import Hdl21Model.Lemmas.Orphanage
 import Hdl21Model.Lemmas.ModulePipe
 import Hdl21Model.Props.C06
+import Hdl21Model.Props.C01
 import Hdl21Model.Lemmas.ResolveUnit
 namespace Hdl21.Props.C02
 open Hdl21 Hdl21.Runner
@@ -415,6 +416,60 @@ example :
   decide +kernel
 end Pipeline
 
+
+/-! ## … with instance arrays -/
+section PipelineArrays
+open Hdl21.Pkg Hdl21.RoundTrip Hdl21.ExportWF Hdl21.ModulePipe Hdl21.ArrayPass
+
+/-- **An ill-wired instance array yields no module.** If the pass list with `ArrayFlattener` in it (`pipelineA`) returns, every
+    array is of something defined, has at least one element, and every connection of it is over the module's own signals, sits
+    on a port the target has, and is as wide as that port or `n` times as wide — nothing in between, nothing beyond (the floor
+    division of seeds C02-1 / C02-r8-2 accepted `n·w + r`).  What the expanded elements then have to satisfy as instances is
+    `module_accepts_only_wellformed` on the flattened module: every port connected, nothing else. -/
+theorem arrays_accepted_only_wellformed (fuel : Nat) (ctx : PRef → Option (List (String × Nat))) (nm : String → Nat → String)
+    (arrs : List HArr) (h : HModule) (p : PModule) (hp : pipelineA fuel ctx nm arrs h = .ok p) :
+    ∀ a ∈ arrs, ∃ ports, ctx a.ref = some ports ∧ 1 ≤ a.n ∧
+      ∀ pc ∈ a.conns, sigsOK (sigList h) pc.2 = true ∧
+        ∃ w cw, lookup pc.1 ports = some w ∧ pc.2.width = .ok cw ∧ (w = cw ∨ w * a.n = cw) := by
+  unfold pipelineA at hp
+  split at hp
+  · cases hp
+  · rename_i horph
+    split at hp
+    · cases hp
+    · split at hp
+      · cases hp
+      · cases hf : flattenArrays ctx nm arrs.reverse h with
+        | error x => simp [hf] at hp
+        | ok h' =>
+          obtain ⟨_, _, _, _, hall⟩ := flattenArrays_spec ctx nm arrs.reverse h h' hf
+          intro a ha
+          obtain ⟨els, hexp, _⟩ := hall a (List.mem_reverse.mpr ha)
+          unfold expandArr at hexp
+          cases hc : ctx a.ref with
+          | none => simp [hc] at hexp
+          | some ports =>
+            simp only [hc] at hexp
+            cases hx : ArrayPass.expand (ports.map fun pw => (pw.1, Port.sig pw.2)) a.n (a.conns.map fun pc => (pc.1, AConn.sig pc.2)) with
+            | error x => simp [hx] at hexp
+            | ok r =>
+              obtain ⟨hn, hconns⟩ := (Hdl21.Props.C01.array_pass_accepts_iff _ a.n _).mp ⟨r, hx⟩
+              refine ⟨ports, rfl, hn, ?_⟩
+              intro pc hpc
+              have hs : sigsOK (sigList h) pc.2 = true := by
+                simp only [Bool.not_eq_true', Bool.not_eq_false] at horph
+                have := List.all_eq_true.mp horph a ha
+                exact List.all_eq_true.mp this pc hpc
+              have := hconns (pc.1, AConn.sig pc.2) (List.mem_map.mpr ⟨pc, hpc, rfl⟩)
+              simp only [lookupP_map] at this
+              obtain ⟨w, cw, h1, h2, h3⟩ := this
+              cases hl : lookup pc.1 ports with
+              | none => simp [hl] at h1
+              | some w' =>
+                simp only [hl, Option.map_some, Option.some.injEq, Port.sig.injEq] at h1
+                subst h1
+                exact ⟨hs, w', cw, rfl, h2, h3⟩
+end PipelineArrays
 
 /-! ## … and for every module of an F1 design -/
 section Hierarchy
